@@ -154,6 +154,51 @@ PROPS.update({
         "level_note": _DERIVE_LEVEL_NOTE + " Objects of exactly 2 members.", "assumptions": _DERIVE_ASSUME},
 })
 
+_ERRORS_UNIT = {"kind": "verus", "unit": "errors"}
+PROPS["C03"]["units"] = [_IMPLS_UNIT, _ERRORS_UNIT]
+PROPS["C03"]["text"] += " The built-in error types are proved (Verus, unit 'errors') to answer Break to every report and to return exactly the handed error from merge, so for them the result is the first report of the keep-going run."
+PROPS["C13"] = {
+    "title": "serde_json bridge is lossless and self-consistent", "level": "proof",
+    "technique": "Kani/CBMC loop-free harnesses over all u64 / i64 / f64 / bool on the real IntoValue, From<Value> and Deserr impls for serde_json::Value (complete for scalars)",
+    "design_ref": "DESIGN.md §4 C13",
+    "units": [{"kind": "kani", "group": "json-scalars", "filters": ["h_json::proofs"], "need_stub": True, "timeout": 1200,
+               "assumptions": ["serde_json is compiled as in Cargo.lock (no arbitrary_precision, no preserve_order)", "alloc::fmt::format stubbed (message of the non-finite float report not inspected)",
+                               "strings, arrays and objects (heap-allocated, recursive drop glue) are NOT covered by a discharged harness at this commit: the container part of C13 is undecided here"]}],
+    "text": "For every u64, every i64, every f64 bit pattern, null and both booleans: kind() of the serde_json value equals the kind of its consumed view; numbers are classified as serde_json holds them (u64 => Integer, negative i64 => NegativeInteger, finite f64 => Float bit-exact, non-finite not representable); From<Value> and the Deserr impl give back the same number / bool / null with no report; a non-finite float from another source yields exactly one Unexpected report at the given location (Deserr) or null (From). Loop-free, full domain => complete for the scalar part.",
+    "level_note": "Scalar part complete; nested arrays / objects are not decided at this commit (no bounded harness finished within budget).",
+    "assumptions": [],
+}
+PROPS["C14"] = {
+    "title": "Built-in error messages name the right place, value and alternatives", "level": "other",
+    "technique": "Verus on the extracted JsonError / QueryParamError `error` and `merge` functions (always Break; merge returns the handed error) -- the structural clause only; message text is outside what contracts can decide here",
+    "design_ref": "DESIGN.md §4 C14",
+    "units": [_ERRORS_UNIT],
+    "text": "Decided: both built-in error types answer Break to every report and `merge` returns exactly the error it was handed (Verus, all inputs); together with C03's postconditions this yields 'the message is the one built for the first report of the keep-going run'. NOT decided: the wording of the message (path rendering, quoted value, alternatives, suggestion) -- string formatting is modelled by neither installed verifier (format! is replaced by an opaque string in Verus and costs minutes per call in CBMC).",
+    "level_note": "Partial: structural clause proved; message text not decided. R4 of the extractor replaces the message-building expression by an opaque string after checking it contains no return / ? / break / continue.",
+    "explanation": "Only the fail-fast structure of C14 is within reach of contracts; a change to message text is not detected by this check.",
+    "assumptions": ["parameter types ErrorKind / Value / IntoValue / ValuePointerRef are opaque stand-ins in this unit (the verified functions never inspect them once R4 has been applied)"],
+}
+PROPS["C17"] = {
+    "title": "Expected-kinds phrase depends only on the set of kinds and covers it exactly", "level": "other",
+    "technique": "exhaustive native execution of the real function over the whole finite domain named by the property (all 37 449 sequences of length <= 5 and all 256 subsets under every permutation), against a specification function of the set written from the statement",
+    "design_ref": "DESIGN.md §4 C17",
+    "units": [{"kind": "enum", "group": "kinds-phrase", "harnesses": ["kinds_sequences", "kinds_permutations"], "bounds": "finite domain enumerated completely: 8^0+...+8^5 sequences; every subset of 6, 7, 8 kinds in every order"}],
+    "text": "value_kinds_description_json is a nested-fn / slice-pattern / String-building function that neither verifier takes (Verus: no slice patterns; CBMC: minutes per format! call). Its domain is finite, so it is decided by executing the real function on every sequence of kinds of length <= 5 (with repetitions) and on every permutation of every subset of 6-8 kinds, comparing with spec_phrase(set).",
+    "level_note": "Exhaustive over the stated finite domain; not a deductive proof (labelled so). std sort_by_key / dedup are executed, not assumed.",
+    "explanation": "Exhaustive enumeration of a finite domain by execution of the real code; the contract technique does not reach this function.",
+    "assumptions": [],
+}
+PROPS["C18"] = {
+    "title": "did-you-mean suggests only a closest accepted name within the typo budget", "level": "other",
+    "technique": "exhaustive native execution of the real did_you_mean over all (received, candidate) pairs of a 3-letter alphabet (lengths <= 6 x <= 5) and candidate lists with ties / exact matches / thresholds, against the statement's specification with an independent Damerau-Levenshtein implementation",
+    "design_ref": "DESIGN.md §4 C18",
+    "units": [{"kind": "enum", "group": "did-you-mean", "harnesses": ["dym_pairs", "dym_lists"], "bounds": "397 852 pairs over {a,b,c}; 12 received strings around every budget threshold x lists of <= 3 candidates from a pool of 8 (ties, exact matches, empty list, multi-byte)"}],
+    "text": "Every pair (received, single candidate) over a three-letter alphabet with lengths 0..6 x 0..5, and every list of up to 3 candidates from a pool with ties, exact matches, the empty string and multi-byte words for received strings at every length bucket boundary, is run through the real function and compared with: empty if len <= 3 or no candidate within budget(len), else the earliest candidate at minimal distance.",
+    "level_note": "Bounded exhaustive execution, not a proof. A Kani harness with strsim stubbed by a symbolic distance table exists (h_text::dym_symbolic_distances) but is not part of the registered check unless it completes within budget.",
+    "explanation": "Bounded exhaustive enumeration by execution of the real code; string formatting keeps the function out of practical reach of the verifiers.",
+    "assumptions": ["strsim::damerau_levenshtein is compared with an independent implementation on the enumerated domain only"],
+}
+
 NOT_APPLICABLE = {
     "C20": "HTTP extractors are three-line async compositions of actix-web/axum extractors with deserr::deserialize; neither installed verifier can run or specify the frameworks (futures, pinning, runtime), so every obligation would be an assumed contract on actix/axum with nothing left to prove; the features are off by default and not compiled in the baseline.",
 }
